@@ -58,6 +58,9 @@ OPS = [
     ('is_empty-neg', r'\.is_empty\(\)', '.is_empty() == false'),
     ('clone_without->clone', r'\.clone_without\([^)]*\)', '.clone()'),
     ('insert->or_insert', r'\.insert\(([^,()]+), ([^()]+)\);', r'.entry(\1).or_insert(\2);'),
+    # a step that must happen on every path made conditional on something unrelated that is false now and then: the site stays,
+    # only its "always" goes away (finds rules that see a call but never ask whether every path reaches it)
+    ('stmt-guard', r'^(\s*)((self|other|[a-z_]+)(\.[a-z_]+)+\(.*\);)\s*$', r'\1if std::env::args().count() != 7 { \2 }'),
     ('return-drop', r'^\s*return;\s*$', ''),
     ('continue-drop', r'^\s*continue;\s*$', ''),
 ]
@@ -181,6 +184,9 @@ def main():
     if files is None:
         files = sorted(f for f in os.listdir(os.path.join(REPO, 'src')) if f.endswith('.rs') and f not in ('vvwe.rs',))
     ms = gen_mutants(files)
+    if '--ops' in args:
+        keep = set(args[args.index('--ops') + 1].split(','))
+        ms = [m for m in ms if m['op'] in keep]
     print('%d mutants over %s' % (len(ms), ','.join(files)), flush=True)
     cmdline = extract.rustc_cmdline('default')
     from concurrent.futures import ProcessPoolExecutor
